@@ -134,7 +134,7 @@ PROPS["C07"] = dict(
            dict(name="fuzz", kind="fuzz", run="^FuzzC07$", tiers=["thorough"], thorough="120s", timeout=600)],
 )
 PROPS["C17"] = dict(pkg="c17", level="exploration",
-  rule=("rapid: (a) plaintext 0-300 bytes (empty/1/short/block-edge/long; random, zero, 0xff) x key (GenerateCryptoKey, drawn bytes, zero, ff, one-bit) x second key (independent or one bit off): EVERY bit flip, EVERY truncation from end and front, 4-12 drawn overwrite/delete/insert/append/prepend/swap/splice edits must be refused with error and no data; round trip; 4 encryptions pairwise different; other key fails both ways. (b) passphrase 0-64 bytes (empty/1/ascii/binary/64/utf8), scrypt N=2..1024 r=1..8 p=1..2: NewSecretKey->Marshal->Unmarshal->DeriveKey re-derives the same key and opens the original's ciphertext; 8-15 near misses (bit flip, drop first/last/mid, add byte/NUL/space/newline, case, transpose, doubled, empty) => ErrInvalidPassword; salt+digest bit flips (all 512 in ~1/10 of cases, else 8+8 drawn + digest edge bits) and swapped N/r/p => ErrInvalidPassword; every wrong encoding length => ErrMalformed. (c) one waddrmgr.Manager: sequences of encrypt/decrypt/tamper over CKTPublic/Private/Script with lock, unlock, near-miss unlock, reopen. Non-trivial: (a) plaintext non-empty so nonce, tag and body each had tamper positions; (b) >= 1 near miss; (c) case had a public/private cross decrypt and a locked refusal. Distinct = fingerprint of the rendered case. Concurrent unit: 1-4 goroutines Encrypt(CKTPrivate) in a loop while another goroutine runs 40-200 Lock/Unlock cycles; every ciphertext an Encrypt call returned must decrypt to its plaintext under the private key afterwards (schedules sampled)."),
+  rule=("rapid: (a) plaintext 0-300 bytes (empty/1/short/block-edge/long; random, zero, 0xff) x key (GenerateCryptoKey, drawn bytes, zero, ff, one-bit) x second key (independent or one bit off): EVERY bit flip, EVERY truncation from end and front, 4-12 drawn overwrite/delete/insert/append/prepend/swap/splice edits must be refused with error and no data; round trip; 4 encryptions pairwise different; other key fails both ways. (b) passphrase 0-64 bytes (empty/1/ascii/binary/64/utf8), scrypt N=2..1024 r=1..8 p=1..2: NewSecretKey->Marshal->Unmarshal->DeriveKey re-derives the same key and opens the original's ciphertext; 8-15 near misses (bit flip, drop first/last/mid, add byte/NUL/space/newline, case, transpose, doubled, empty) => ErrInvalidPassword; salt+digest bit flips (all 512 in ~1/10 of cases, else 8+8 drawn + digest edge bits) and swapped N/r/p => ErrInvalidPassword; every wrong encoding length => ErrMalformed. (c) one waddrmgr.Manager: sequences of encrypt/decrypt/tamper over CKTPublic/Private/Script with lock, unlock, near-miss unlock, reopen. Non-trivial: (a) plaintext non-empty so nonce, tag and body each had tamper positions; (b) >= 1 near miss; (c) case had a public/private cross decrypt and a locked refusal. Distinct = fingerprint of the rendered case. Concurrent unit: 1-4 goroutines Encrypt(CKTPrivate) in a loop while another goroutine runs 40-200 Lock/Unlock cycles; every ciphertext an Encrypt call returned must decrypt to its plaintext under the private key afterwards (schedules sampled). A third of the snacl cases wipe a second new key before its first Marshal and require the creating passphrase to bring it back."),
   assumptions=["scrypt parameters kept small (N<=1024); N/r/p encodings are only exchanged for other small valid values",
                "F8 (open): passphrases equal after HMAC key padding (trailing 0x00 / SHA-256 for >64 bytes) are excluded and counted",
                "CKTScript: only same-type round trip, tamper failure and locked refusal are asserted; its key is all-zero on this tree (recorded as note)",
@@ -178,7 +178,7 @@ PROPS["C11"] = dict(pkg="c11", level="exploration",
         "internal/dbmodel (copy on begin): walletdb.Update/db.Update/View/db.View/Batch, manual BeginReadWriteTx+Commit/Rollback, BeginReadTx; 0-12 (24) ops each (put/get/delete, nested create/"
         "create-if-not-exists/delete to depth 3, top-level create/delete, sequences, ForEach, ForEachBucket, cursor walks incl. Delete+re-seek, writes through a read tx); function outcome nil/error/panic, "
         "early (before any op) or late; reopen p=0.15; after every tx a fresh read tx must equal the committed model, after a failed/panicked one a probe write tx must commit (20 s watchdog per step). "
-        "Non-trivial = >=2 tx with >=1 failed/panicked/rolled back after a write, or a cursor walk over >=3 keys with >=2 Next and >=2 Prev, or a successful nested-bucket delete; distinct = fingerprint of the rendered plan. Second unit: 2-9 goroutines call walletdb.Batch concurrently (each writing 1-3 keys of its own and sometimes a nested bucket, a drawn subset returning an error, starts staggered by 0-3 ms, 1-3 rounds with optional reopen); a call that returned nil has all its writes in the database, a call that returned its own error has none. Non-trivial = a round with failing and successful callers."),
+        "Non-trivial = >=2 tx with >=1 failed/panicked/rolled back after a write, or a cursor walk over >=3 keys with >=2 Next and >=2 Prev, or a successful nested-bucket delete; distinct = fingerprint of the rendered plan. Second unit: 2-9 goroutines call walletdb.Batch concurrently (each writing 1-3 keys of its own and sometimes a nested bucket, a drawn subset returning an error, starts staggered by 0-3 ms, 1-3 rounds with optional reopen); a call that returned nil has all its writes in the database, a call that returned its own error has none. Half of the manual read-write transactions are ended through the handle a top-level bucket gives out (Bucket.Tx()). Non-trivial = a round with failing and successful callers."),
   assumptions=["one transaction at a time on the handle (bbolt documents that a read tx and a write tx opened from the same goroutine may deadlock on remap); snapshot isolation between overlapping transactions is therefore not exercised",
                "bucket names <= 300 bytes (bbolt does not size-check bucket names); a bucket handle is re-fetched for every operation; the bucket is not modified between the calls of one cursor operation except by cursor.Delete",
                "not asserted (interface silent): cursor position after Delete or after a nil result, order of ForEachBucket, exact error of DeleteTopLevelBucket / sequence calls / cursor.Delete / CreateBucket on a read tx, key size limit (stored or ErrKeyTooLarge), nil vs empty slice for an empty value, DeleteNestedBucket with an empty name (only: fails)",
@@ -229,7 +229,7 @@ PROPS["C04"] = dict(
           "never-unlocked manager, the all-zero key, the scrypt key of the public passphrase and every 32-byte clear text so recovered; no private key/xprv/passphrase may come out. 1/3 of histories "
           "convert to watching-only: ciphertexts the private/script key opened before are gone from the live namespace, reopen, every address still found, Unlock refused for every passphrase, every "
           "private accessor refused, then 0-6 watching-only operations (incl. ImportPrivateKey). Wallet-level unit: wallet.Loader.CreateNewWallet on bdb, public wallet API only, file searched after "
-          "every call. Non-trivial = >= 3 commits with >= 1 import/new account/scope/passphrase change and >= 20 needles. Distinct = fingerprint of the rendered history."),
+          "every call. A secret script or private key opened by a key the public passphrase gives access to is a violation (the all-zero script key residue of this tree is an observation). Non-trivial = >= 3 commits with >= 1 import/new account/scope/passphrase change and >= 20 needles. Distinct = fingerprint of the rendered history."),
     assumptions=_MGR_ASSUME + ["passphrases are 8-20 printable characters containing a digit; needles shorter than 8 bytes are never searched (count measured: 0)",
                  "no transaction is recorded in any history, so public material must be hidden throughout",
                  "secret scripts opened by the all-zero key are an observation (cryptoKeyScript is never derived on this tree), not raised",
